@@ -117,7 +117,10 @@ def get_xyz(line):
 
 def set_xyz(line, x, y, z):
     line = line.rstrip("\n").ljust(54)
-    return line[:30] + f"{x:8.3f}{y:8.3f}{z:8.3f}" + line[54:]
+    f = f"{x:8.3f}{y:8.3f}{z:8.3f}"
+    if len(f) != 24:
+        raise ValueError(f"coordinate leaves the 8-column PDB field: {(x, y, z)} (harness error, not a verdict)")
+    return line[:30] + f + line[54:]
 
 
 def map_atoms(text, fn):
